@@ -155,6 +155,10 @@ pub struct World {
     pub consumer_steps_left: usize,
     /// bytes accepted since the last completed flush
     pub dirty: bool,
+    /// waker of the consumer task (a task of its own, polled only when this waker fired)
+    pub cwaker: Option<Waker>,
+    /// connection-task waker of a handler that waits (`w`) for the consumer task to finish
+    pub consumer_done_waiter: Option<Waker>,
 }
 
 pub type Shared = Rc<RefCell<World>>;
@@ -185,6 +189,9 @@ impl World {
         }
         if self.silent_waiter.is_some() {
             s.push('z');
+        }
+        if self.consumer_done_waiter.is_some() {
+            s.push('j');
         }
         s
     }
@@ -505,8 +512,48 @@ impl Future for HandlerFut {
                         let mut w = this.world.borrow_mut();
                         let cs: VecDeque<u8> = w.reqs[rid].csteps.iter().cloned().collect();
                         w.consumer_steps_left = cs.len();
+                        // a freshly spawned task is runnable
+                        let spawn_runnable = cs.front() == Some(&b'A');
                         w.consumer = Some((pl, cs, rid));
+                        let cw = w.cwaker.clone();
+                        drop(w);
+                        if spawn_runnable {
+                            if let Some(cw) = cw {
+                                cw.wake();
+                            }
+                        }
                     }
+                }
+                // poll the payload once under the connection task's waker, never block
+                b't' => {
+                    this.steps.pop_front();
+                    if let Some(pl) = this.payload.as_mut() {
+                        match poll_payload_once(pl, cx) {
+                            Poll::Pending => {}
+                            Poll::Ready(Some(Ok(b))) => {
+                                this.world.borrow_mut().cons_entry(rid).1 += b.len();
+                            }
+                            Poll::Ready(None) => {
+                                this.world.borrow_mut().cons_entry(rid).2 = true;
+                                this.payload = None;
+                            }
+                            Poll::Ready(Some(Err(_))) => {
+                                this.world.borrow_mut().cons_entry(rid).3 = true;
+                                this.payload = None;
+                            }
+                        }
+                    }
+                }
+                // wait until the consumer task that owns the moved payload has finished
+                b'w' => {
+                    let mut w = this.world.borrow_mut();
+                    if w.consumer.is_none() {
+                        drop(w);
+                        this.steps.pop_front();
+                        continue;
+                    }
+                    w.consumer_done_waiter = Some(cx.waker().clone());
+                    return Poll::Pending;
                 }
                 _ => {
                     this.steps.pop_front();
@@ -567,6 +614,29 @@ pub fn consumer_step(world: &Shared, cw: &Waker) {
                 Poll::Pending => {}
             }
         }
+        // wake-driven read-to-end: poll until Pending (stay on this step) or until the stream ends
+        Some(b'A') => {
+            let mut cx = Context::from_waker(cw);
+            loop {
+                match poll_payload_once(&mut pl, &mut cx) {
+                    Poll::Ready(Some(Ok(b))) => world.borrow_mut().cons_entry(rid).1 += b.len(),
+                    Poll::Ready(None) => {
+                        world.borrow_mut().cons_entry(rid).2 = true;
+                        keep = false;
+                        break;
+                    }
+                    Poll::Ready(Some(Err(_))) => {
+                        world.borrow_mut().cons_entry(rid).3 = true;
+                        keep = false;
+                        break;
+                    }
+                    Poll::Pending => {
+                        steps.push_front(b'A');
+                        break;
+                    }
+                }
+            }
+        }
         Some(b'd') | None => {
             let mut w = world.borrow_mut();
             let e = w.cons_entry(rid);
@@ -580,12 +650,40 @@ pub fn consumer_step(world: &Shared, cw: &Waker) {
     let mut w = world.borrow_mut();
     if keep {
         w.consumer_steps_left = steps.len();
+        // a scripted step followed by the wake-driven one: the task simply goes on running
+        let goes_on = step != Some(b'A') && steps.front() == Some(&b'A');
         w.consumer = Some((pl, steps, rid));
+        if goes_on {
+            drop(w);
+            cw.wake_by_ref();
+        }
     } else {
         w.consumer_steps_left = 0;
+        let done = w.consumer_done_waiter.take();
         drop(w);
         drop(pl);
+        // the task has finished: whoever joins it is woken
+        if let Some(wk) = done {
+            wk.wake();
+        }
     }
+}
+
+fn consumer_parked(world: &Shared) -> bool {
+    matches!(world.borrow().consumer.as_ref().and_then(|c| c.1.front().cloned()), Some(b'A'))
+}
+
+/// The consumer task is a task of its own: it runs when its waker has fired and it is parked on
+/// a wake-driven step (`A`). Returns true if it ran.
+fn run_consumer_if_woken(world: &Shared, cflag: &Flag, cw: &Waker) -> bool {
+    if !cflag.woken.swap(false, Ordering::SeqCst) {
+        return false;
+    }
+    if !consumer_parked(world) {
+        return false;
+    }
+    consumer_step(world, cw);
+    true
 }
 
 // ---------------------------------------------------------------------------------------------
@@ -734,6 +832,8 @@ pub fn run_case_probe(case: &Case, probe_at: Option<usize>) -> Option<RunResult>
         consumer: None,
         consumer_steps_left: 0,
         dirty: false,
+        cwaker: None,
+        consumer_done_waiter: None,
     }));
     let cfg = case.cfg.clone();
     let mut ev: VecDeque<usize> = case.ev.iter().cloned().collect();
@@ -776,6 +876,7 @@ pub fn run_case_probe(case: &Case, probe_at: Option<usize>) -> Option<RunResult>
         let waker = Waker::from(flag.clone());
         let cflag = Arc::new(Flag { woken: AtomicBool::new(false), count: AtomicUsize::new(0) });
         let cwaker = Waker::from(cflag.clone());
+        world.borrow_mut().cwaker = Some(cwaker.clone());
 
         let mut trace: Vec<String> = Vec::new();
         let mut polls = 0usize;
@@ -801,6 +902,10 @@ pub fn run_case_probe(case: &Case, probe_at: Option<usize>) -> Option<RunResult>
                 }
                 Poll::Pending => {}
             }
+            // the other task of the executor: the consumer runs if its own waker has fired
+            if run_consumer_if_woken(&world, &cflag, &cwaker) {
+                trace.push("C".into());
+            }
             let woken = flag.woken.load(Ordering::SeqCst);
             if std::env::var_os("C04_DEBUG").is_some() {
                 eprintln!("poll {} -> Pending woken={} waiters={} acc={}", polls, woken, world.borrow().waiters(), world.borrow().log.accepted.len());
@@ -824,6 +929,9 @@ pub fn run_case_probe(case: &Case, probe_at: Option<usize>) -> Option<RunResult>
                 break 'run;
             }
             loop {
+                if run_consumer_if_woken(&world, &cflag, &cwaker) {
+                    trace.push("C".into());
+                }
                 if flag.woken.load(Ordering::SeqCst) {
                     continue 'run;
                 }
@@ -880,6 +988,7 @@ pub fn run_case_probe(case: &Case, probe_at: Option<usize>) -> Option<RunResult>
                     ready = true;
                     break;
                 }
+                run_consumer_if_woken(&world, &cflag, &cwaker);
                 if !flag.woken.load(Ordering::SeqCst) {
                     break;
                 }
@@ -924,7 +1033,10 @@ fn deliver_one(world: &Shared, ev: &mut VecDeque<usize>, cwaker: &Waker, trace: 
     if let Some(src) = ev.pop_front() {
         trace.push(format!("{}{}", if forced { "!" } else { "" }, SRC[src] as char));
         if src == C {
-            consumer_step(world, cwaker);
+            // a consumer parked on a wake-driven step runs only when its waker fires
+            if !consumer_parked(world) {
+                consumer_step(world, cwaker);
+            }
         } else {
             world.borrow_mut().fire(src);
         }
@@ -946,7 +1058,7 @@ fn deliver_one(world: &Shared, ev: &mut VecDeque<usize>, cwaker: &Waker, trace: 
     if any {
         return true;
     }
-    let has_consumer = world.borrow().consumer.is_some();
+    let has_consumer = world.borrow().consumer.is_some() && !consumer_parked(world);
     if has_consumer {
         trace.push(format!("{}c", if forced { "!" } else { "" }));
         consumer_step(world, cwaker);
